@@ -228,6 +228,9 @@ def curated():
     out.append(D("nest-3in2", [f3, d2], nest(cross(["f"], ["f"]), cross(["d"], ["d"])), ["nest"]))
     out.append(D("nest-inner-atmost", [c2, d2, fac("g", ["u", "v"])], nest(cross(["c"], ["c"]), cross(["d", "g"], ["d"], [["AtMostKInARow", 1, "g", "u"]])), ["nest", "scope-inner", "atmost"]))
     out.append(D("nest-own-atmost", [c2, d2, fac("g", ["u", "v"])], nest(cross(["c"], ["c"]), cross(["d", "g"], ["d"]), [["AtMostKInARow", 1, "g", "u"]]), ["nest", "scope-outer", "atmost"]))
+    # a within-trial derived factor crossed in the OUTER block whose other source is not crossed (sustained label, unsustained source)
+    out.append(D("nest-outer-derived-crossed", [c2, fac("w", A2), within_eq("k", "c", "w", A2, A2), d2],
+                 nest(cross(["c", "w", "k"], ["k"]), cross(["d"], ["d"])), ["nest", "within", "derived-crossed"]))
     # MinimumTrials on the Nest itself that is not a multiple of the inner run length (rounded up), alone and next to constraints whose validation asks for the trial count
     out.append(D("nest-own-min5", [c2, d2], nest(cross(["c"], ["c"]), cross(["d"], ["d"]), [["MinimumTrials", 5]]), ["nest", "mintrials"]))
     out.append(D("nest-own-min5-pin", [c2, d2], nest(cross(["c"], ["c"]), cross(["d"], ["d"]), [["MinimumTrials", 5], ["Pin", 0, "d", "x"]]), ["nest", "mintrials", "pin", "scope-outer"]))
